@@ -2,7 +2,10 @@ package gvc
 
 import (
 	"fmt"
+	"go/token"
+	"go/types"
 	"sort"
+	"strings"
 
 	"golang.org/x/tools/go/ssa"
 )
@@ -78,19 +81,49 @@ func (u *Unit) loopSpec(fn *ssa.Function, ord int) *LoopSpec {
 	return sf.Loops[fmt.Sprintf("%s#%d", shortFuncName(fn), ord)]
 }
 
-// atLoopHeader implements the unrolling modes.  Returns true when the path
-// ends here.
+// atLoopHeader implements the loop modes.  Returns true when it has taken
+// over (the path ends here or execution continued from inside).
+//
+//   unroll N   - execute the loop as it unfolds, with an unwinding obligation
+//                after N completed iterations (complete, not bounded)
+//   bounded N  - same, but assume exit after N iterations (reported as bounded)
+//   havoc      - default: on entry every value the loop may change is replaced
+//                by an unconstrained one (plus automatically derived counter
+//                facts), the body is executed once from that state and the
+//                path ends at the back edge; code after the loop runs on the
+//                havocked state.  Unbounded and sound; proves nothing about
+//                what the loop computes.
 func (u *Unit) atLoopHeader(st *State, fr *Frame, lp *loop, b, pred *ssa.BasicBlock, k Kont) bool {
 	key := fmt.Sprintf("%d:%d", fr.id, b.Index)
-	if pred == nil || !lp.blocks[pred] {
-		st.visits[key] = 0
-		return false
-	}
 	spec := u.loopSpec(fr.fn, lp.ordinal)
+	mode := "havoc"
 	n := u.Cfg.MaxUnroll
-	mode := "bounded"
 	if spec != nil && (spec.Mode == "unroll" || spec.Mode == "bounded") {
 		n, mode = spec.N, spec.Mode
+	}
+	if u.Cfg.ForceBounded > 0 {
+		mode, n = "bounded", u.Cfg.ForceBounded
+	}
+	entry := pred == nil || !lp.blocks[pred]
+	if mode == "havoc" {
+		if !entry {
+			return true // back edge: the body has been checked from an arbitrary state
+		}
+		u.havocLoop(st, fr, lp, b, pred)
+		i := 0
+		for i < len(b.Instrs) {
+			if _, ok := b.Instrs[i].(*ssa.Phi); !ok {
+				break
+			}
+			i++
+		}
+		u.HavocLoops[fmt.Sprintf("%s loop %d", FuncName(fr.fn), lp.ordinal)]++
+		u.runInstrs(st, fr, b, i, k)
+		return true
+	}
+	if entry {
+		st.visits[key] = 0
+		return false
 	}
 	c := st.visits[key] + 1
 	st.visits[key] = c
@@ -103,7 +136,6 @@ func (u *Unit) atLoopHeader(st *State, fr *Frame, lp *loop, b, pred *ssa.BasicBl
 		u.check(st, name, "unwind", TFalse, fmt.Sprintf("loop %d needs at most %d iterations", lp.ordinal, n))
 		return true
 	}
-	// bounded: assume exit, record
 	tag := fmt.Sprintf("%s loop %d bounded %d", FuncName(fr.fn), lp.ordinal, n)
 	found := false
 	for _, x := range u.Bounded {
@@ -115,4 +147,364 @@ func (u *Unit) atLoopHeader(st *State, fr *Frame, lp *loop, b, pred *ssa.BasicBl
 		u.Bounded = append(u.Bounded, tag)
 	}
 	return true
+}
+
+func addrRoot(v ssa.Value) ssa.Value {
+	for {
+		switch x := v.(type) {
+		case *ssa.FieldAddr:
+			v = x.X
+		case *ssa.IndexAddr:
+			v = x.X
+		default:
+			return v
+		}
+	}
+}
+
+func pointerish(t types.Type) bool {
+	switch x := t.Underlying().(type) {
+	case *types.Pointer, *types.Slice, *types.Map, *types.Signature, *types.Interface:
+		return true
+	case *types.Struct:
+		for i := 0; i < x.NumFields(); i++ {
+			if pointerish(x.Field(i).Type()) {
+				return true
+			}
+		}
+	case *types.Array:
+		return pointerish(x.Elem())
+	}
+	return false
+}
+
+// havocLoop replaces everything the loop may modify by unconstrained values.
+func (u *Unit) havocLoop(st *State, fr *Frame, lp *loop, hdr, pred *ssa.BasicBlock) {
+	// 1. header phis
+	idx := -1
+	for i, p := range hdr.Preds {
+		if p == pred {
+			idx = i
+		}
+	}
+	for _, in := range hdr.Instrs {
+		ph, ok := in.(*ssa.Phi)
+		if !ok {
+			break
+		}
+		name := ph.Comment
+		if name == "" {
+			name = ph.Name()
+		}
+		nv := u.freshVal(st, ph.Type(), "lp_"+name, false)
+		// automatically derived counter fact: phi = phi + c on every back edge
+		if t, ok := nv.(*Term); ok && t.Sort == SInt && idx >= 0 {
+			init, ok1 := u.get(st, fr, ph.Edges[idx]).(*Term)
+			step := 0
+			okAll := ok1
+			for j, e := range ph.Edges {
+				if j == idx || !lp.blocks[hdr.Preds[j]] {
+					continue
+				}
+				bo, ok := e.(*ssa.BinOp)
+				if !ok || (bo.Op != token.ADD && bo.Op != token.SUB) || bo.X != ssa.Value(ph) {
+					okAll = false
+					break
+				}
+				c, ok := bo.Y.(*ssa.Const)
+				if !ok || c.Value == nil {
+					okAll = false
+					break
+				}
+				cv := c.Int64()
+				if bo.Op == token.SUB {
+					cv = -cv
+				}
+				if cv > 0 && step >= 0 {
+					step = 1
+				} else if cv < 0 && step <= 0 {
+					step = -1
+				} else {
+					okAll = false
+				}
+			}
+			if okAll && step > 0 {
+				u.assume(Ge(t, init))
+			} else if okAll && step < 0 {
+				u.assume(Le(t, init))
+			}
+		}
+		fr.regs[ph] = nv
+	}
+	// 1b. header-controlled counting loops: the previous iteration passed the
+	// loop condition, so  phi == init  or  cond held for the previous value.
+	if ifi, ok := hdr.Instrs[len(hdr.Instrs)-1].(*ssa.If); ok && idx >= 0 && lp.blocks[hdr.Succs[0]] && !lp.blocks[hdr.Succs[1]] {
+		if cmp, ok := ifi.Cond.(*ssa.BinOp); ok && cmp.Block() == hdr && isIntKind(cmp.X.Type()) {
+			invariantY := func(v ssa.Value) bool {
+				switch y := v.(type) {
+				case *ssa.Const, *ssa.Parameter, *ssa.FreeVar:
+					return true
+				case ssa.Instruction:
+					return !lp.blocks[y.Block()]
+				}
+				return false
+			}
+			rel := func(a, b *Term) *Term {
+				switch cmp.Op {
+				case token.LSS:
+					return Lt(a, b)
+				case token.LEQ:
+					return Le(a, b)
+				case token.GTR:
+					return Gt(a, b)
+				case token.GEQ:
+					return Ge(a, b)
+				case token.NEQ:
+					return Neq(a, b)
+				}
+				return TTrue
+			}
+			if invariantY(cmp.Y) {
+				yv, _ := u.get(st, fr, cmp.Y).(*Term)
+				for _, in := range hdr.Instrs {
+					ph, ok := in.(*ssa.Phi)
+					if !ok {
+						break
+					}
+					if !isIntKind(ph.Type()) || yv == nil {
+						continue
+					}
+					pv := fr.regs[ph].(*Term)
+					init, _ := u.get(st, fr, ph.Edges[idx]).(*Term)
+					// all back-edge values must be the same BinOp phi+c
+					var back *ssa.BinOp
+					okAll := true
+					for j, e := range ph.Edges {
+						if j == idx {
+							continue
+						}
+						bo, ok := e.(*ssa.BinOp)
+						if !ok || bo.Op != token.ADD || bo.X != ssa.Value(ph) || (back != nil && back != bo) {
+							okAll = false
+							break
+						}
+						if _, isc := bo.Y.(*ssa.Const); !isc {
+							okAll = false
+							break
+						}
+						back = bo
+					}
+					if !okAll || back == nil || init == nil {
+						continue
+					}
+					c := IntLit(back.Y.(*ssa.Const).Int64())
+					switch {
+					case cmp.X == ssa.Value(ph):
+						u.assume(Or(Eq(pv, init), rel(Sub(pv, c), yv)))
+					case cmp.X == ssa.Value(back) && back.Block() == hdr:
+						u.assume(Or(Eq(pv, init), rel(pv, yv)))
+					}
+				}
+			}
+		}
+	}
+	// 2. memory
+	unknown := false
+	cells := map[*Cell]bool{}
+	var scan func(fn *ssa.Function, blocks []*ssa.BasicBlock, in map[*ssa.BasicBlock]bool)
+	scan = func(fn *ssa.Function, blocks []*ssa.BasicBlock, in map[*ssa.BasicBlock]bool) {
+		for _, b := range blocks {
+			if in != nil && !in[b] {
+				continue
+			}
+			for _, instr := range b.Instrs {
+				switch x := instr.(type) {
+				case *ssa.Store:
+					root := addrRoot(x.Addr)
+					if al, ok := root.(*ssa.Alloc); ok && fn == fr.fn {
+						if pv, ok := fr.regs[al].(PtrV); ok && pv.Cell != nil {
+							cells[pv.Cell] = true
+							continue
+						}
+						if al.Parent() == fn && in != nil && in[al.Block()] {
+							continue // allocated inside the loop body
+						}
+					}
+					unknown = true
+				case *ssa.MapUpdate:
+					if mv, ok := fr.regs[x.Map].(MapV); ok && fn == fr.fn {
+						st.maps[mv.ID] = &MapState{Opaque: true}
+					} else {
+						unknown = true
+					}
+				case ssa.CallInstruction:
+					cc := x.Common()
+					if bi, ok := cc.Value.(*ssa.Builtin); ok {
+						switch bi.Name() {
+						case "copy":
+							unknown = true
+						case "append":
+							if isByteSlice(cc.Args[0].Type()) {
+								unknown = true
+							}
+						case "delete":
+							unknown = true
+						}
+						continue
+					}
+					callee := cc.StaticCallee()
+					if callee != nil {
+						pk := pkgOf(callee)
+						if pk == "github.com/go-i2p/logger" || pk == "github.com/sirupsen/logrus" || pk == "github.com/samber/oops" || pk == "fmt" || pk == "errors" || pk == "strings" || pk == "strconv" {
+							continue
+						}
+					}
+					for _, a := range cc.Args {
+						if pointerish(a.Type()) {
+							unknown = true
+						}
+					}
+					if cc.IsInvoke() {
+						unknown = true
+					}
+				}
+			}
+		}
+	}
+	scan(fr.fn, fr.fn.Blocks, lp.blocks)
+	if unknown {
+		u.HavocAll++
+		// everything reachable from the values of this activation may change
+		rc := map[int]bool{}
+		rr := map[string]bool{}
+		rm := map[int]bool{}
+		for _, v := range fr.regs {
+			u.reach(st, v, rc, rr, rm, 0)
+		}
+		for id := range rc {
+			c := u.cellByID[id]
+			if c == nil || strings.HasPrefix(c.Name, "g:") {
+				continue // package-level variables are covered by A-GLOBALS / frame obligations
+			}
+			delete(st.cells, id)
+			st.symCells[id] = true
+		}
+		for k := range rr {
+			r := st.regions[k]
+			if r == nil || r.Virt {
+				continue
+			}
+			nr := *r
+			nr.C = u.newArr("Ch")
+			st.regions[k] = &nr
+			for _, e := range st.edges[k] {
+				if q := st.regions[e.Other]; q != nil && !rr[e.Other] {
+					nq := *q
+					nq.C = u.newArr("Ch")
+					st.regions[e.Other] = &nq
+				}
+			}
+		}
+		for id := range rm {
+			if ms := st.maps[id]; ms == nil || ms.Global == "" {
+				st.maps[id] = &MapState{Opaque: true}
+			}
+		}
+	} else {
+		for c := range cells {
+			delete(st.cells, c.ID)
+			st.symCells[c.ID] = true
+		}
+	}
+}
+
+// CountLoops reports the number of natural loops of fn (incl. closures).
+func CountLoops(fn *ssa.Function) int {
+	u := &Unit{loops: map[*ssa.Function]*loopInfo{}}
+	n := 0
+	if li := u.loopsOf(fn); li != nil {
+		n += len(li.list)
+	}
+	for _, a := range fn.AnonFuncs {
+		n += CountLoops(a)
+	}
+	return n
+}
+
+// reach collects the cells, byte regions and maps reachable from v.
+func (u *Unit) reach(st *State, v Val, cells map[int]bool, regs map[string]bool, maps map[int]bool, depth int) {
+	if depth > 12 {
+		return
+	}
+	switch x := v.(type) {
+	case SliceV:
+		if x.List == nil {
+			key := x.Blk.S
+			if c, ok := st.canon[key]; ok {
+				key = c
+			}
+			if _, ok := st.regions[key]; ok {
+				regs[key] = true
+			} else if !(x.Blk.IsInt) {
+				// unknown block: may be any region
+				for _, k := range st.order {
+					regs[k] = true
+				}
+			}
+			return
+		}
+		for key, c := range u.cellIdx {
+			if strings.HasPrefix(key, fmt.Sprintf("list%d[", x.List.ID)) && !cells[c.ID] {
+				cells[c.ID] = true
+				if cv, ok := st.cells[c.ID]; ok {
+					u.reach(st, cv, cells, regs, maps, depth+1)
+				}
+			}
+		}
+	case PtrV:
+		if x.Blk != nil {
+			key := x.Blk.S
+			if c, ok := st.canon[key]; ok {
+				key = c
+			}
+			regs[key] = true
+			return
+		}
+		if x.Cell != nil && !cells[x.Cell.ID] {
+			cells[x.Cell.ID] = true
+			if cv, ok := st.cells[x.Cell.ID]; ok {
+				u.reach(st, cv, cells, regs, maps, depth+1)
+			}
+		}
+	case ArrRefV:
+		regs[x.Blk.S] = true
+	case StructV:
+		for _, e := range x.F {
+			u.reach(st, e, cells, regs, maps, depth+1)
+		}
+	case TupleV:
+		for _, e := range x.E {
+			u.reach(st, e, cells, regs, maps, depth+1)
+		}
+	case ArrTupleV:
+		for _, e := range x.E {
+			u.reach(st, e, cells, regs, maps, depth+1)
+		}
+	case IfaceV:
+		if x.Dyn != nil {
+			u.reach(st, x.V, cells, regs, maps, depth+1)
+		}
+	case FuncV:
+		for _, e := range x.Bind {
+			u.reach(st, e, cells, regs, maps, depth+1)
+		}
+	case MapV:
+		maps[x.ID] = true
+		if ms := st.maps[x.ID]; ms != nil {
+			for _, e := range ms.Entries {
+				u.reach(st, e.K, cells, regs, maps, depth+1)
+				u.reach(st, e.V, cells, regs, maps, depth+1)
+			}
+		}
+	}
 }
